@@ -59,10 +59,13 @@ def check(size, w, u0):
         return f"index out of range: {idx.tolist()[:10]}"
     if (np.diff(idx) < 0).any():
         return "indices decrease"
-    if abs(w.sum() - 1.0) <= 1e-12 and u0 > 0:
+    if u0 > 0:
+        # floor/ceil copies w.r.t. the normalised weights, for every accepted weight vector (also sums slightly off 1); the slack
+        # covers only binary64 rounding of size*w (a few ulp), not a deficit of the sum
         copies = np.bincount(idx, minlength=len(w))
         nw = size * w / w.sum()
-        bad = np.where((copies < np.floor(nw - 1e-9)) | (copies > np.ceil(nw + 1e-9)))[0]
+        slack = 1e-12 * max(1.0, size)
+        bad = np.where((copies < np.floor(nw - slack)) | (copies > np.ceil(nw + slack)))[0]
         if len(bad):
             return f"copies {copies[bad[0]]} of index {bad[0]} not in floor/ceil of {nw[bad[0]]}"
     return None
@@ -77,6 +80,13 @@ def main():
         tried += 1
         if r:
             print(json.dumps({"reproduced": True, "input": inp, "detail": r, "tried": tried}))
+            return
+    for (size, ww, u0) in ((2, [0.5 - 0.5e-9, 0.5 - 0.5e-9], 1 - 0.5e-9), (3, [1 / 3 - 1e-9, 1 / 3, 1 / 3 - 1e-9], 1 - 1e-9),
+                           (5, [0.2 - 2e-9] * 5, float(np.nextafter(1, 0)))):
+        tried += 1
+        r = check(size, ww, u0)
+        if r:
+            print(json.dumps({"reproduced": True, "detail": r, "tried": tried, "input": {"size": size, "w": ww, "u0": u0}}))
             return
     rng = np.random.RandomState(0)
     # directed search: n in 1..6, size in 1..6, deficits/excess inside tolerance, u0 at partition ends
